@@ -17,6 +17,7 @@ pub fn run(name : &str, ctx : &Ctx, out : &mut Out) -> bool
         "c12_sorter" => c12::sorter(ctx, out),
         "c13_identity" => c13::identity(ctx, out),
         "c13_shared" => c13::shared_history(ctx, out),
+        "c13_neighbours" => c13::neighbours(ctx, out),
         "c14_parser" => c14::parser(ctx, out),
         "c14_files_bundles" => c14::parse_all_and_bundle(ctx, out),
         "c15_base62" => c15::base62(ctx, out),
@@ -30,6 +31,7 @@ pub fn run(name : &str, ctx : &Ctx, out : &mut Out) -> bool
         "c17_contradiction" => hist::contradiction(ctx, out),
         "c10_clean_build" => hist::clean_build(ctx, out),
         "swap" => hist::swap(ctx, out),
+        "epoch" => hist::epoch(ctx, out),
         "mixed" => hist::mixed(ctx, out),
         "dropped" => hist::dropped_rule(ctx, out),
         "sched" => sched::schedules(ctx, out),
